@@ -195,7 +195,9 @@ def s6(chk: Check, proj: Project, m, f) -> None:
             v = st.targets[0].id
             blk = next((b for a in ancestors(st) for b in (getattr(a, "body", None), getattr(a, "orelse", None)) if isinstance(b, list) and st in b), [])
             kept = any(isinstance(s2, ast.Expr) and isinstance(s2.value, ast.Call) and norm(s2.value.func) == f"{acc}.append" and s2.value.args and norm(s2.value.args[0]) == v for s2 in blk)
-        closing = any(isinstance(a, ast.If) and any(isinstance(x, ast.Break) for x in a.body) and any(st is b or any(st is y for y in ast.walk(b)) for b in a.body) for a in ancestors(c))
+        # the closing `%}` is consumed without being kept: that is the statement list which itself ends in `break`
+        own = next((b for a in ancestors(st) for b in (getattr(a, "body", None), getattr(a, "orelse", None)) if isinstance(b, list) and st in b), [])
+        closing = bool(own) and isinstance(own[-1], ast.Break)
         if not kept and not closing:
             lost.append(c)
     chk.ob("S6", "util.template_parser:_detailed_tag_parser:consumed-text-kept", dm.loc(lost[0]) if lost else dm.loc(loop), not lost and acc is not None,
